@@ -15,7 +15,26 @@ open Upnp Upnp.Proto Upnp.C13
 
 def consts : Consts := genConsts
 
-def str (t : String) : Str := ((tokStr t).getD "?").toList
+/-- hex digit value of an ASCII byte (255 = not a hex digit) -/
+@[inline] def hexNib (b : UInt8) : UInt8 :=
+  if 48 ≤ b && b ≤ 57 then b - 48 else if 97 ≤ b && b ≤ 102 then b - 87 else 255
+
+/-- fast decoder for the hex tokens (`-` = empty); falls back to `?` on malformed input -/
+def str (t : String) : Str :=
+  if t = "-" then [] else
+  let bs := t.toUTF8
+  if bs.size % 2 ≠ 0 then ['?'] else Id.run do
+    let mut out : ByteArray := ByteArray.emptyWithCapacity (bs.size / 2)
+    let mut ok := true
+    for i in [0:bs.size / 2] do
+      let a := hexNib bs[2 * i]!
+      let b := hexNib bs[2 * i + 1]!
+      if a == 255 || b == 255 then ok := false
+      out := out.push (a * 16 + b)
+    if !ok then return ['?']
+    match String.fromUTF8? out with
+    | some s => return s.toList
+    | none => return ['?']
 def optStr (t : String) : Option Str := if t = "!" then none else some (str t)
 def strList (t : String) : List Str := if t = "~" then [] else (t.splitOn ",").map str
 def show' (s : Str) : String := String.ofList s
@@ -197,22 +216,26 @@ def finish (st : St) : Bool × Bool × List String :=
     (corrNotes.isEmpty, ok icase && wf, jnotes ++ corrNotes)
   | _, _, _ => (false, false, ["case header incomplete (cfg / cls / dev)"] ++ st.bad)
 
+def oneLine (s : String) : String := (s.replace "\r" "\\r").replace "\n" "\\n"
+
+/-- stdin line by line (the shared `readLines`/`tokens` scan every character several times, which
+    dominates on this property's long hex lines) -/
+partial def loop (h : IO.FS.Stream) (out : IO.FS.Stream) (st : St) (cur : String) (n : Nat) : IO Nat := do
+  let line ← h.getLine
+  if line.isEmpty then return n
+  let toks := (line.trimRight.splitOn " ").filter (· ≠ "")
+  match toks with
+  | ["case", id] => loop h out {} id n
+  | ["end"] =>
+      let (c, j, notes) := finish st
+      out.putStrLn s!"case {cur} corr={if c then "ok" else "MISMATCH"} judge={if j then "ok" else "FAIL"} {oneLine (" ; ".intercalate (notes.take 3))}"
+      loop h out {} cur (n + 1)
+  | [] => loop h out st cur n
+  | _ => loop h out (step st toks) cur n
+
 def main : IO UInt32 := do
-  let lines ← readLines (← IO.getStdin)
   let out ← IO.getStdout
-  let mut st : St := {}
-  let mut cur := ""
-  let mut n := 0
-  for line in lines do
-    let toks := tokens line
-    match toks with
-    | ["case", id] => cur := id; st := {}
-    | ["end"] =>
-        n := n + 1
-        let (c, j, notes) := finish st
-        out.putStrLn s!"case {cur} corr={if c then "ok" else "MISMATCH"} judge={if j then "ok" else "FAIL"} {" ; ".intercalate (notes.take 3)}"
-    | [] => pure ()
-    | _ => st := step st toks
+  let n ← loop (← IO.getStdin) out {} "" 0
   out.putStrLn s!"done {n}"
   return 0
 
